@@ -336,7 +336,7 @@ Proof.
   destruct (wf_walk_iso (P_todao alts) l r (fun _ _ _ => eq_refl) Hc1 Hwf) as [d' [s1' [E1 [I1 [M1 [D1 _]]]]]].
   rewrite Hto in E1. inversion E1; subst d' s1'.
   destruct (walk_bisim (P_todao alts) (heap_of l) _ Hc1 s1 I1 D1) as [Hb _].
-  destruct I1 as [J1 [J2 [J3 [_ J5]]]].
+  destruct I1 as [J1 [J2 [J3 [_ [J5 _]]]]].
   split; [simpl; now rewrite map_length, seq_length|].
   split; [|repeat split; auto].
   intros x. split.
